@@ -708,7 +708,7 @@ def _random_cases(seed, count):
         if rng.random() < 0.7:
             kind_f = rng.choice(FAULT_KINDS)
             code = {"http": rng.choice([403, 404, 500, 429]), "non2xx": rng.choice([404, 503, 302])}.get(kind_f, 0)
-            at = rng.randint(0, 1) if kind_f == "nofield" else rng.randint(0, 60)
+            at = rng.randint(0, 1) if kind_f == "nofield" else min(60, int(rng.expovariate(1 / 9.0)))
             fault = {"at": at, "kind": kind_f, "code": code}
         cases.append({"id": f"big{c}", "srv": srv, "job": {"call": call, "targets": targets}, "fault": fault,
                       "extra_calls": rng.choice([1, 1, 2])})
